@@ -78,7 +78,19 @@ pub fn generate(seed: u64, idx: u64) -> Scenario {
     let mut s = Session::new();
     s.handshake(rng.chance(500));
     let ndocs = rng.range(1, 3);
-    let uris: Vec<String> = (0..ndocs).map(fresh_uri).collect();
+    let mut uris: Vec<String> = (0..ndocs).map(fresh_uri).collect();
+    if rng.chance(200) {
+        // documents whose URIs are almost equal (same path, other scheme / query / fragment /
+        // letter case): each has its own text
+        let near = ["untitled:///w/doc0.spl", "file:///w/doc0.spl?rev=HEAD", "file:///w/doc0.spl#cell1", "file:///w/Doc0.spl", "git:/w/doc0.spl?ref=main", "file://host/w/doc0.spl"];
+        uris.truncate(1);
+        for _ in 0..rng.range(1, 2) {
+            let u = rng.pick(&near).to_string();
+            if !uris.contains(&u) {
+                uris.push(u);
+            }
+        }
+    }
     for u in &uris {
         let t = initial_text(&mut rng);
         s.open(u, &t);
